@@ -315,20 +315,173 @@ pub struct C01State {
 #[derive(Default)]
 pub struct C04State {
     pub from_genesis_outstanding: HashSet<usize>,
+    pub aborted: bool,
+    /// branch switches the client could not notice (no reorg section / child fast path): (clause, fork point)
+    pub unnoticed: Vec<(String, u64)>,
 }
 
 pub fn c04_on_long_fork_abort(ck: &mut Checker, sim: &mut Sim, ctx: &str) {
-    if !ck.flag("long_fork_expected") {
+    // The documented abort. It is legitimate iff (a) the message is an honest proof answering
+    // the from-genesis recheck request and (b) the proven header shares none of the headers
+    // the client remembered (stored tip, last-N).
+    let (session, tag, data) = match ck.cur.clone() {
+        Some(x) => x,
+        None => {
+            sim.violate("C10", "panic:long_fork_abort_outside_a_message", ctx.to_string());
+            return;
+        }
+    };
+    let recheck = ck
+        .snap
+        .prove
+        .get(&session)
+        .and_then(|(_, req)| req.clone())
+        .and_then(|r| packed::GetLastStateProof::from_slice(&r).ok())
+        .map(|r| Unpack::<u64>::unpack(&r.start_number()) == 0)
+        .unwrap_or(false);
+    let new_id = packed::LightClientMessageReader::from_compatible_slice(&data)
+        .ok()
+        .and_then(|m| match m.to_enum() {
+            packed::LightClientMessageUnionReader::SendLastStateProof(r) => {
+                Some(r.last_header().header().to_entity().calc_header_hash())
+            }
+            _ => None,
+        })
+        .and_then(|h| sim.world.by_hash.get(&h).cloned());
+    let mut shared = None;
+    if let Some(new_id) = new_id {
+        let mut remembered: Vec<(u64, Vec<u8>)> = ck.snap.last_n.clone();
+        remembered.push((ck.snap.tip_number, ck.snap.tip_hash.clone()));
+        for (n, h) in remembered {
+            if n == 0 {
+                continue;
+            }
+            if let Some(id) = Byte32::from_slice(&h).ok().and_then(|h| sim.world.by_hash.get(&h).cloned()) {
+                if sim.world.is_ancestor_or_self(id, new_id) {
+                    shared = Some(n);
+                }
+            }
+        }
+    }
+    ck.c04.aborted = true;
+    if !tag.honest || new_id.is_none() {
         sim.violate(
             "C10",
-            "panic:long_fork_abort_without_a_long_fork",
-            format!("the client aborted with 'long fork detected' {}", ctx),
+            "panic:long_fork_abort_caused_by_a_crafted_message",
+            format!("'long fork detected' {}", ctx),
+        );
+    } else if !recheck {
+        sim.violate(
+            "C04",
+            "long_fork_abort_without_the_from_genesis_recheck",
+            format!("'long fork detected' {}", ctx),
+        );
+    } else if let Some(n) = shared {
+        sim.violate(
+            "C04",
+            "long_fork_abort_although_a_remembered_header_is_shared",
+            format!("the proven chain contains the remembered header #{} ; {}", n, ctx),
         );
     } else {
-        sim.stat("probe.long_fork_abort");
+        sim.stat("probe.c04.long_fork_abort");
     }
 }
 pub fn c04_on_client_send(_ck: &mut Checker, _sim: &mut Sim, _s: usize, _p: Proto, _d: &Bytes) {}
+
+/// Root-cause detector: the stored tip moved to another branch but the part of the index
+/// (and of the filter progress) above the fork point was not rolled back.
+pub fn c04_after(ck: &mut Checker, sim: &mut Sim, session: usize, _p: Proto, _d: &Bytes, tag: &Tag) {
+    let c = match sim.client.as_ref() {
+        Some(c) => c,
+        None => return,
+    };
+    let mut peer_switch = false;
+    // per-peer variant: the peer's proven header moved to another branch through a proof
+    // without reorg section (the start was rebased onto a stored header of the new branch)
+    if tag.kind == Kind::SendLastStateProof
+        && tag.layout.as_ref().map(|l| l.reorg.is_empty() && !l.tip_changed).unwrap_or(false)
+    {
+        let prev = ck.snap.prove.get(&session).and_then(|(p, _)| p.clone());
+        let now = c
+            .peers
+            .get_state(&PeerIndex::new(session))
+            .and_then(|st| st.get_prove_state().map(|p| p.get_last_header().header().hash()));
+        if let (Some(prev), Some(now)) = (prev, now) {
+            let a = Byte32::from_slice(&prev).ok().and_then(|h| sim.world.by_hash.get(&h).cloned());
+            let b = sim.world.by_hash.get(&now).cloned();
+            if let (Some(a), Some(b)) = (a, b) {
+                if a != b && !sim.world.is_ancestor_or_self(a, b) {
+                    let fork = sim.world.blocks[sim.world.common_ancestor(a, b)].number();
+                    ck.c04.unnoticed.push((
+                        "fork_unnoticed_when_start_was_rebased_below_the_fork".to_string(),
+                        fork,
+                    ));
+                    peer_switch = true;
+                }
+            }
+        }
+    }
+    let (_, tip) = c.storage.get_last_state();
+    let tip_hash = tip.calc_header_hash();
+    if tip_hash.as_slice() == ck.snap.tip_hash.as_slice() || ck.snap.tip_hash.is_empty() {
+        if peer_switch {
+            sim.stat("probe.c04.peer_proof_switched_branch_without_reorg_section");
+        }
+        return;
+    }
+    let old_id = match Byte32::from_slice(&ck.snap.tip_hash).ok().and_then(|h| sim.world.by_hash.get(&h).cloned()) {
+        Some(i) => i,
+        None => return,
+    };
+    let new_id = match sim.world.by_hash.get(&tip_hash) {
+        Some(i) => *i,
+        None => return,
+    };
+    if sim.world.is_ancestor_or_self(old_id, new_id) {
+        return;
+    }
+    let fork = sim.world.blocks[sim.world.common_ancestor(old_id, new_id)].number();
+    let scripts_now = c
+        .storage
+        .get_filter_scripts()
+        .iter()
+        .map(|x| x.block_number)
+        .max()
+        .unwrap_or(0);
+    let mf_now = c.storage.get_min_filtered_block_number();
+    let need = ck.snap.max_script_progress > fork || ck.snap.min_filtered > fork;
+    let rolled = scripts_now <= fork + 1 && mf_now <= fork;
+    sim.stat("probe.c04.branch_switch");
+    if need {
+        sim.stat("probe.c04.branch_switch_over_indexed_blocks");
+    }
+    let clause = match tag.kind {
+        Kind::SendLastStateProof
+            if tag.layout.as_ref().map(|l| l.reorg.is_empty()).unwrap_or(false) =>
+        {
+            "fork_unnoticed_when_start_was_rebased_below_the_fork"
+        }
+        Kind::SendLastState => "fork_unnoticed_by_child_fast_path",
+        _ => "fork_switch_without_rollback",
+    };
+    if clause != "fork_switch_without_rollback" {
+        ck.c04.unnoticed.push((clause.to_string(), fork));
+    }
+    if need && !rolled {
+        let detail = format!(
+            "tip moved from #{} to #{} on another branch (fork point #{}); scripts were filtered up to {} / min_filtered {} and stay at {} / {}: blocks above the fork point of the abandoned branch remain indexed",
+            ck.snap.tip_number,
+            Unpack::<u64>::unpack(&tip.raw().number()),
+            fork,
+            ck.snap.max_script_progress,
+            ck.snap.min_filtered,
+            scripts_now,
+            mf_now
+        );
+        sim.violate("C04", clause, detail);
+        sim.taint = Some(format!("C04/{}", clause));
+    }
+}
 
 pub fn c07_on_boot(_ck: &mut Checker, _sim: &mut Sim) {}
 pub fn c07_before(_ck: &mut Checker, _sim: &mut Sim, _s: usize, _p: Proto, _d: &Bytes, _t: &Tag) {}
